@@ -433,6 +433,14 @@ def extract_fusion_engine_log(input_path, output_path=None, warn_on_gaps=True, r
 
     index_builder = FileIndexBuilder() if save_index else None
 
+    # If the output file is the input file itself (e.g., the default output name for a `*.p1log` input, or extracting
+    # the output of a previous extraction in place), opening it for writing would truncate the input before it is
+    # read. Write to a temporary file instead and replace the input once the extraction is complete.
+    in_place = os.path.exists(output_path) and os.path.samefile(input_path, output_path)
+    final_output_path = output_path
+    if in_place:
+        output_path = output_path + '.tmp'
+
     with open(input_path, 'rb') as in_fd, open(output_path, 'wb') as out_path:
         reader = MixedLogReader(in_fd, warn_on_gaps=warn_on_gaps, save_index=False,
                                 return_header=True, return_payload=True, return_bytes=True, return_offset=False,
@@ -451,6 +459,12 @@ def extract_fusion_engine_log(input_path, output_path=None, warn_on_gaps=True, r
         else:
             _logger.debug('No FusionEngine messages found.')
             os.remove(output_path)
+
+    if in_place:
+        # Nothing was extracted: leave the input file as it is.
+        if reader.valid_count > 0:
+            os.replace(output_path, final_output_path)
+        output_path = final_output_path
 
     if index_builder is not None:
         index_path = FileIndex.get_path(output_path)
